@@ -561,10 +561,11 @@ def build_fn_chunk(chunk, fspec, fnkey, built, cover, relwhere):
         new_sig = name_return(sig.rstrip(), fspec['ret'])
     if fspec.get('sig_rewrite'):
         for (pat, rep) in fspec['sig_rewrite']:
-            new_sig2 = re.sub(pat, rep, new_sig)
-            if new_sig2 == new_sig:
+            if not re.search(pat, new_sig):
                 raise ExtractError('sig_rewrite %r did not apply to %s' % (pat, fnkey))
-            log.add('R7-sig', fnkey, new_sig, new_sig2)
+            new_sig2 = re.sub(pat, rep, new_sig)
+            if new_sig2 != new_sig:
+                log.add('R7-sig', fnkey, new_sig, new_sig2)
             new_sig = new_sig2
     if new_sig.rstrip() != sig.rstrip():
         chunk.replace_span(sig_start, body, new_sig.rstrip() + '\n', 'ret-name')
